@@ -39,6 +39,8 @@ type proofEvent struct {
 	u     *gabi.ProofU
 	c     *world.Cred
 	uSecr *big.Int
+	// sameBuilder: issued by the CredentialBuilder of the previous event (its commitment U is then the same by construction)
+	sameBuilder bool
 }
 
 type c07log struct {
@@ -124,7 +126,9 @@ func c07Check(r *mon.Run, hist string, events []*proofEvent) {
 			}
 		case ev.u != nil:
 			noteRand(ev, "secretkey-randomiser", sub(ev.u.SResponse, mul(ev.u.C, ev.uSecr)), ev.u.C, true)
-			noteElem(ev, "U", ev.u.U)
+			if !ev.sameBuilder {
+				noteElem(ev, "U", ev.u.U)
+			}
 		}
 	}
 	// two-transcript extractor on responses whose secret the harness does not know
@@ -270,7 +274,39 @@ func c07Sequential(r *mon.Run, k *world.Key, jr *rand.Rand, idx int) {
 		ci := jr.IntN(nc)
 		cc := creds[ci]
 		ctx, nonce := freshNonces(jr)
-		switch op := jr.IntN(8); op {
+		switch op := jr.IntN(9); op {
+		case 8: // issuance retried: the same CredentialBuilder answers two issuer nonces (CommitToSecretAndProve twice)
+			hist += " iss-retry"
+			b, err := gabi.NewCredentialBuilder(k.PK, ctx, secret, randBig(jr, 80), nil, nil)
+			if err != nil {
+				continue
+			}
+			for t := 0; t < 2+jr.IntN(2); t++ {
+				_, n1 := freshNonces(jr)
+				var msg *gabi.IssueCommitmentMessage
+				var merr error
+				if t%2 == 0 {
+					msg, merr = b.CommitToSecretAndProve(n1)
+				} else {
+					var l gabi.ProofList
+					if l, merr = (gabi.ProofBuilderList{b}).BuildProofList(ctx, n1, false); merr == nil {
+						msg = b.CreateIssueCommitmentMessage(l)
+					}
+				}
+				if merr != nil || msg == nil || len(msg.Proofs) == 0 {
+					r.Eval("op-error", "error")
+					continue
+				}
+				pu, isU := msg.Proofs[0].(*gabi.ProofU)
+				if !isU {
+					continue
+				}
+				ok := false
+				mon.Try(func() { ok = pu.Verify(k.PK, ctx, n1) })
+				r.Eval("verify", outcome(ok, nil))
+				// U is fixed per builder by construction; what must be fresh for every proof is the secret-key randomiser
+				log.add(&proofEvent{cred: -1, op: fmt.Sprintf("issuance-retry-%d", t), u: pu, uSecr: secret, sameBuilder: t > 0})
+			}
 		case 7: // two builders outstanding at the same time (the first is only used after the second was created)
 			hist += fmt.Sprintf(" two%d", ci)
 			b1, e1 := cc.c.C.CreateDisclosureProofBuilder([]int{1}, nil, true)
